@@ -56,6 +56,20 @@ CHECKS = {
         'CPython datetime arithmetic is the ground truth for instants; float '
         'tolerances as stated in the evidence assumptions',
         'DESIGN.md section 2, C20'),
+    'C19': (
+        'Hypothesis-generated single calls of every strings/regex function '
+        'against an independent index-arithmetic model; exhaustive '
+        'characters() flag sets',
+        'Generated-input search: strings over a 6-letter alphabet plus '
+        'unicode samples, boundary start/length/count arguments, generated '
+        'regex family with numbered, named and non-participating groups x 8 '
+        'flag sets x 10 selector forms; oracle models/strmodel.py (explicit '
+        'loops on Python strings, match records/splits/substitutions built '
+        'from re.finditer) plus the split/join and split/searchAll '
+        'interleave laws; all 4096 characters() flag combinations '
+        'enumerated. Sampled apart from that enumeration.',
+        'CPython re is the matching engine in model and implementation; '
+        'str.upper/lower likewise', 'DESIGN.md section 2, C19'),
     'C03': (
         'exhaustive short token sequences + Hypothesis token soups / '
         'mutations / unicode text against a validity predicate',
